@@ -8,7 +8,7 @@ prop(
     design_ref="DESIGN.md 2/C09",
     stages=[
         dict(run="^TestPropSelect$",
-             quick=dict(checks=48000, shards=16, timeout=600),
+             quick=dict(checks=32000, shards=16, timeout=600),
              thorough=dict(checks=1600000, shards=16, timeout=7200)),
     ],
     rule="1-4 rule{} blocks, each with 0-3 match and 0-3 ignore sub-blocks of 1-4 conditions over all nine kinds (path, name, kind, "
